@@ -46,7 +46,8 @@ def streaming_rule(rep, prog, cfg, rule="C02.streaming", root_names=(COMPONENT_P
 
 def consume_rule(rep, prog, cfg):
     rule = "C02.consume-on-ok"
-    bs = body_by_name(prog, PARSE)
+    from ..common import builder_parse_bodies
+    bs = builder_parse_bodies(prog)
     if len(bs) != 1:
         rep.fail(rule + ".anchor", cfg, PARSE, "function not found")
         return
@@ -148,7 +149,8 @@ def consume_rule(rep, prog, cfg):
             if empty_t is not None:
                 allowed.append((a["bb"], empty_t))
     nones = ok_none_blocks(b)
-    free = reach(g.succs, [0], avoid_edges=allowed)
+    from ..cfg import VariantReach
+    free = VariantReach(b).blocks(0, avoid_edges=allowed)      # variant-sensitive: outcomes of a spliced helper stay apart (A13)
     rep.check(nones and not (nones & free), "C02.need-more", cfg + "/Ok(None) only after Incomplete or on an empty buffer", b.loc(b.span),
               "ResponseBuilder::parse can answer 'need more bytes' without having offered the buffered bytes to the component parser (or the Ok(None) "
               "return was not found): whether buffered input is looked at then depends on a length / content pre-check, i.e. on read segmentation")
